@@ -5,8 +5,8 @@ import (
 	"strconv"
 	"strings"
 
-	ast "github.com/goplus/xgo/tpl/ast"
 	"github.com/goplus/xgo/tpl"
+	ast "github.com/goplus/xgo/tpl/ast"
 	tpltoken "github.com/goplus/xgo/tpl/token"
 
 	"verif/fw"
